@@ -46,6 +46,8 @@ def obligations(tier):
                        bounds=("registered type" if q < 5 else "dict-kept type") + ", first input form %d" % (q % 5) + "; 3 additions from 5 modified texts (three instants "
                               "within one millisecond, one respelled, one later) x input forms; both stores: all_versions = distinct instants, get = greatest, query by "
                               "instant; composite over single-version sources"))
+    obls.append(CH("ambiguous_local_time_versions", H, "ambiguous_local_versions", t, mode="E1s", functions=F[1:2] + ["stix2.datastore.memory._modified_instant", "stix2.utils.deduplicate"], stubs=[FSS],
+                   bounds="two versions whose modified times are the two readings (fold 0 / 1) of one ambiguous local time, added in both orders, as objects and as dictionaries: both stores, a composite over two sources and deduplicate() keep two versions and answer get() with the later instant"))
     obls.append(JOB("latest_version_by_instant", "props.j_time", "job_family_latest", 600, functions=F[1:2] + ["stix2.utils.parse_into_datetime"],
                     bounds="two dict-kept versions in both orders: every pair of canonical modified texts with %s fraction digits (symbolic fields and digits)" % (
                         "8 combinations of 0..6" if tier == "quick" else "every combination of 0..6")))
